@@ -254,6 +254,12 @@ pub fn check(c: &ScopeCase, probe: &Probe) -> Verdict {
     }
     if !link_paths.is_empty() {
         probe.class("tree-with-symlinks-to-files");
+        // and one symbolic link to a DIRECTORY whose own name looks like a source file: it is not a file, so it
+        // is never examined (nor followed), whatever the globs say
+        let _ = std::fs::create_dir_all(sb.root.join(".hid_linktarget"));
+        let _ = std::os::unix::fs::symlink(sb.root.join(".hid_linktarget"), sb.root.join("zz_dirlink.py"));
+        let _ = std::fs::create_dir_all(sb.root.join("src"));
+        let _ = std::os::unix::fs::symlink(sb.root.join(".hid_linktarget"), sb.root.join("src/chart.js"));
     }
     for (p, st) in &status {
         if link_paths.iter().any(|(l, _)| l == p) {
@@ -377,7 +383,7 @@ pub fn case_strategy() -> BoxedStrategy<ScopeCase> {
 }
 
 pub fn run(run: &mut Run) {
-    run.rule = "random: a tree of 2..13 files over 20 directories (incl. a name with a comma, `a`, `b`, `b/b`, `b/a/b`, a name with a space, a dotted directory, hidden directories, git-ignored directories, directories named like files: `lib.py`, `notes.md`, `a/x.py`, `y.rs`) x 11 file names (5 languages, names with spaces/dots, hidden, git-ignored, unknown suffix), a generated .gitignore (+ optional nested one), in a third of the cases 1..2 symbolic links to healthy files of the tree, 0..3 positional and 0..3 --ignore globs of the four documented forms (`*.ext`, `dir/**`, `**/name`, exact path), a real `git diff --cached -M` naming 0..3 of the files (each touched inside its block; some of them renamed, so that the `---` and `+++` paths differ) or interactive mode, started from the root or any sub-directory. Every file holds one uniquely named violating block; files outside the reference scope are rewritten as tripwires (unclosed start tag), so examining one fails the run. Reference scope = ((not hidden and not ignored by `git check-ignore --no-index`) and matches a positional glob — everything when interactive without globs) or named in the diff, minus --ignore matches; `*.ext` on nested paths is unspecified. Compared with the key sets of `list` and of the diagnostics. Non-trivial = a top-level directory `b` together with a diff-named file outside every glob / hit by an ignore glob / under `b/`.".into();
+    run.rule = "random: a tree of 2..13 files over 20 directories (incl. a name with a comma, `a`, `b`, `b/b`, `b/a/b`, a name with a space, a dotted directory, hidden directories, git-ignored directories, directories named like files: `lib.py`, `notes.md`, `a/x.py`, `y.rs`) x 11 file names (5 languages, names with spaces/dots, hidden, git-ignored, unknown suffix), a generated .gitignore (+ optional nested one), in a third of the cases 1..2 symbolic links to healthy files of the tree plus two symbolic links to a directory whose own names look like source files (`zz_dirlink.py`, `src/chart.js`), 0..3 positional and 0..3 --ignore globs of the four documented forms (`*.ext`, `dir/**`, `**/name`, exact path), a real `git diff --cached -M` naming 0..3 of the files (each touched inside its block; some of them renamed, so that the `---` and `+++` paths differ) or interactive mode, started from the root or any sub-directory. Every file holds one uniquely named violating block; files outside the reference scope are rewritten as tripwires (unclosed start tag), so examining one fails the run. Reference scope = ((not hidden and not ignored by `git check-ignore --no-index`) and matches a positional glob — everything when interactive without globs) or named in the diff, minus --ignore matches; `*.ext` on nested paths is unspecified. Compared with the key sets of `list` and of the diagnostics. Non-trivial = a top-level directory `b` together with a diff-named file outside every glob / hit by an ignore glob / under `b/`.".into();
     run.assumptions = vec![
         "git's own ignore matcher is the authority on .gitignore semantics; globs are matched by a harness-side matcher for the four documented forms only".into(),
         "default a/ b/ diff prefixes (no --no-prefix), paths free of characters git quotes".into(),
